@@ -34,6 +34,7 @@ type Reader struct {
 	objStmCache map[int]*core.ObjectStream // Cache for object streams
 	fileSize    int64
 	pageTree    *pages.PageTree // Cached page tree
+	loading     map[int]bool    // Objects currently being loaded (cycle guard)
 }
 
 // Ensure Reader implements pages.ObjectResolver
@@ -184,6 +185,18 @@ func (r *Reader) GetObject(objNum int) (core.Object, error) {
 	if !entry.InUse {
 		return nil, fmt.Errorf("object %d is not in use", objNum)
 	}
+
+	// Loading an object can load others (an indirect /Length, the object
+	// stream that contains it). A reference chain that leads back to an
+	// object still being loaded would recurse without end.
+	if r.loading[objNum] {
+		return nil, fmt.Errorf("circular reference while loading object %d", objNum)
+	}
+	if r.loading == nil {
+		r.loading = make(map[int]bool)
+	}
+	r.loading[objNum] = true
+	defer delete(r.loading, objNum)
 
 	var obj core.Object
 	var err error
